@@ -53,21 +53,22 @@ def run_history(hist, rng_seed):
     return recs
 
 
-def same(a, b):
+def same(a, b, rel=1e-9):
     if a is None or b is None:
         return a is None and b is None
     if isinstance(a, bool) or isinstance(b, bool):
         return bool(a) == bool(b) and isinstance(a, (bool, int)) and isinstance(b, (bool, int))
     if isinstance(a, (int, float)) and isinstance(b, (int, float)):
-        return math.isclose(a, b, rel_tol=1e-9, abs_tol=1e-12)
+        return math.isclose(a, b, rel_tol=rel, abs_tol=1e-12)
     return a == b
 
 
 def to_record(hist, idx, c, o, si):
     n, p = o["numba"], o["python"]
-    eq = [len(n) == len(p)] + [same(x, y) for x, y in zip(n, p)]
+    rel = 1e-5 if c["kind"] == "float32" else 1e-9      # single precision: the two paths may accumulate in different widths
+    eq = [len(n) == len(p)] + [same(x, y, rel) for x, y in zip(n, p)]
     n2, p2 = o.get("numba2", []), o.get("python2", [])
-    eq2 = [len(n2) == len(p2)] + [same(x, y) for x, y in zip(n2, p2)]
+    eq2 = [len(n2) == len(p2)] + [same(x, y, rel) for x, y in zip(n2, p2)]
     earlier = [e for e in hist[:idx] if e["t"] == "call"]
     return {"h": c["h"], "h2": c.get("h2", ""), "eq2": eq2, "sametype2": o.get("tn2", "") == o.get("tp2", ""),
             "numba2": n2, "python2": p2, "broken2": bool(c.get("broken2", False)),
@@ -165,7 +166,7 @@ def run(ctx):
     # once; first/last/nth/mode run before max/min so that the recorded order defect does not mask anything)
     order = ["first", "last", "nth", "mode"] + [h for h in HELPERS if h not in ("first", "last", "nth", "mode", "max", "min")] + ["max", "min"]
     matrix = []
-    for kind in (["float", "date"] if quick else KINDS):
+    for kind in (["float", "date", "float32"] if quick else KINDS + ["float32"]):
         hist = [{"t": "proc", "cache": True}]
         for h in order:
             if kind in ("date", "datetime") and h not in ("count", "count_unique", "first", "last", "nth", "mode", "min", "max"):
@@ -237,7 +238,7 @@ def run(ctx):
                 "interpreters with a private NUMBA_CACHE_DIR per history; every call is executed with USE_NUMBA on and off in the same "
                 "interpreter on identical data (groups with NA first/last/all, single-element groups) and compared per group. "
                 "non-trivial = distinct (earlier calls, call) contexts with at least one earlier call" % (len(hists), len(pairs)))
-    ctx.assumptions += ["floating point: isclose(rel 1e-9); missing positions must coincide; result dtype kind must coincide",
+    ctx.assumptions += ["floating point: isclose(rel 1e-9; 1e-5 for float32 columns); missing positions must coincide; result dtype kind must coincide",
                         "kernel compile/load/reuse status is read from numba dispatcher statistics (layer 2, NOTE only)"]
 
 
